@@ -1060,3 +1060,152 @@ Proof.
     try (split; [reflexivity|eexists; split; [reflexivity|split; reflexivity]]);
     try (left; reflexivity); try (right; reflexivity); try tauto.
 Qed.
+
+(** * theorems: for all histories (source writes, refetches, manual writes, completions in any
+      order, task polls in any order, awaiters attached at any point) *)
+Theorem reach c initial evs : gc c -> INV c true (run c initial evs) /\ WK (run c initial evs).
+Proof.
+  intros G. unfold run.
+  assert (H : forall s, INV c true s /\ WK s -> INV c true (fold_left (step c) evs s) /\ WK (fold_left (step c) evs s)).
+  { induction evs as [|ev evs IH]; intros s [I W]; cbn [fold_left]; [auto|].
+    apply IH. apply step_ok; auto. }
+  apply H, init_ok.
+Qed.
+
+(** fetches are serial: a fetch in flight is always the one of the current version, so the
+    version test in the task loop never fails and an older fetch can never overwrite a newer one *)
+Theorem fetches_are_serial : forall c initial evs, gc c ->
+  forall f v, task (run c initial evs) = TFetch f v -> v = version (run c initial evs).
+Proof. intros c initial evs G. exact (i_ser c true _ (proj1 (reach c initial evs G))). Qed.
+
+(** all futures completed (or dropped) and the node's task not ready *)
+Definition quiescent (s : node) : Prop :=
+  woken s = false /\
+  forall f fu, nth_error (futs s) f = Some fu -> f_done fu = true \/ f_alive fu = false.
+
+Theorem quiescent_latest : forall c initial evs, gc c ->
+  let s := run c initial evs in
+  quiescent s ->
+  loading s = false /\ (manual s = false -> value s = Some (fetchf c (inputs c s))).
+Proof.
+  intros c initial evs G s (Hw & Hq). destruct (reach c initial evs G) as (I & W). fold s in I, W.
+  (* the task is not awaiting a fetch: that fetch would be complete, and the task woken *)
+  assert (Ht : task s = TIdle).
+  { destruct (task s) as [|f v] eqn:Ht; [reflexivity|]. exfalso.
+    destruct (i_A c true s I f v Ht) as (_ & fu & Hf & Hal & _).
+    destruct (Hq f fu Hf) as [Hd|Hd]; [|congruence].
+    pose proof (w_G s W f v fu Ht Hf Hd). congruence. }
+  (* no notification is pending, hence no unprocessed change *)
+  assert (Hfl : flag s = false).
+  { destruct (flag s) eqn:Hfl; [|reflexivity]. pose proof (w_F2 s W Ht Hfl). congruence. }
+  assert (Hd : st_dirty s = false).
+  { destruct (st_dirty s) eqn:E; [|reflexivity]. rewrite (i_E c true s I eq_refl (or_introl E)) in Hfl. discriminate. }
+  assert (Hfr : first_run s = false).
+  { destruct (first_run s) eqn:E; [|reflexivity].
+    rewrite (i_E c true s I eq_refl (or_intror (or_introl E))) in Hfl. discriminate. }
+  assert (Hs : seen s = curvals c s).
+  { destruct (list_eq_dec Z.eq_dec (seen s) (curvals c s)) as [E|E]; [exact E|].
+    rewrite (i_E c true s I eq_refl (or_intror (or_intror E))) in Hfl. discriminate. }
+  split; [exact (i_C c true s I Ht Hfr)|].
+  intros Hm. rewrite (i_B c true s I Ht Hfr Hm), (i_D c true s I Hd). f_equal. f_equal.
+  unfold capof. destruct (shape c) eqn:Hsh; [reflexivity|]. rewrite Hs. symmetry. apply inputs_iv. congruence.
+Qed.
+
+(** awaiters: nobody stays parked once loading is off … *)
+Theorem awaiters_resumed : forall c initial evs, gc c ->
+  loading (run c initial evs) = false -> wakers (run c initial evs) = [].
+Proof. intros c initial evs G. exact (i_parked c true _ (proj1 (reach c initial evs G))). Qed.
+
+(** … because whenever loading goes off, every parked awaiter's waker is invoked *)
+Lemma wake_fold ws : forall aws a w, nth_error aws a = Some (APending w) ->
+  nth_error (fold_left (fun aws a => upd a wake_awaiter aws) ws aws) a =
+  Some (APending (w + count_occ Nat.eq_dec ws a)).
+Proof.
+  induction ws as [|x ws IH]; intros aws a w Ha; cbn [fold_left count_occ].
+  - rewrite Nat.add_0_r. exact Ha.
+  - destruct (Nat.eq_dec x a) as [->|Hne].
+    + rewrite (IH _ a (S w)); [f_equal; f_equal; lia|].
+      rewrite nth_error_upd_same, Ha. reflexivity.
+    + rewrite (IH _ a w); [reflexivity|]. rewrite nth_error_upd_other; auto.
+Qed.
+
+Theorem parked_awaiters_woken : forall s a w,
+  In a (wakers s) -> nth_error (awaiters s) a = Some (APending w) ->
+  exists w', nth_error (awaiters (notify_subs s)) a = Some (APending w') /\ (w < w')%nat.
+Proof.
+  intros s a w Hin Ha. exists (w + count_occ Nat.eq_dec (wakers s) a)%nat. split.
+  - unfold notify_subs. sf.
+    assert (E : forall x, awaiters x = awaiters s -> wakers x = wakers s ->
+              nth_error (fold_left (fun aws a0 => upd a0 wake_awaiter aws) (wakers x) (awaiters x)) a =
+              Some (APending (w + count_occ Nat.eq_dec (wakers s) a))).
+    { intros x E1 E2. rewrite E1, E2. apply wake_fold. exact Ha. }
+    unfold d_mark_dirty, d_notify. destruct (d_sub s); sf; [destruct (d_reg s); sf|]; apply E; reflexivity.
+  - apply (count_occ_In Nat.eq_dec) in Hin. lia.
+Qed.
+
+(** a synchronous read never returns a fabricated value *)
+Theorem sync_read_is_previous_or_none : forall c initial evs, gc c ->
+  forall v, value (run c initial evs) = Some v -> In v (legit (run c initial evs)).
+Proof. intros c initial evs G. exact (i_prov c true _ (proj1 (reach c initial evs G))). Qed.
+
+(** each transition is announced: storing a value (or a manual notify) marks the subscribed
+    dependent dirty and sets its channel flag *)
+Theorem dependents_notified_each_transition : forall s,
+  d_sub s = true ->
+  d_dirty (notify_subs s) = true /\ d_set (notify_subs s) = true /\
+  (d_reg s = true \/ d_woken s = true -> d_woken (notify_subs s) = true) /\
+  loading (notify_subs s) = false.
+Proof.
+  intros s Hs. unfold notify_subs, d_mark_dirty, d_notify. sf. rewrite Hs. sf.
+  destruct (d_reg s) eqn:Hr; sf; repeat split; auto. intros [H|H]; [discriminate|exact H].
+Qed.
+
+(** * the code before the fixes violates [quiescent_latest]; examples *)
+Definition ex_fetch (p : Z * Z) : Z := (fst p * 1000 + snd p)%Z.
+Definition quiescentb (s : node) : bool :=
+  negb (woken s) && forallb (fun fu => f_done fu || negb (f_alive fu)) (futs s).
+
+(** F-C10: m2 changes, m3 (read first, depends on m2) does not: no refetch *)
+Definition w1_cfg : cfg := mkCfg 2 0 false false false ex_fetch.
+Definition w1_evs : list event := [RunAll []; Complete 0; RunAll []; WriteSig 0 1; RunAll []].
+Example quiescent_latest_prefix_refuted :
+  let s := run w1_cfg None w1_evs in
+  quiescentb s = true /\ manual s = false /\ value s = Some 0%Z /\
+  ex_fetch (inputs w1_cfg s) = 10%Z.
+Proof. vm_compute. auto. Qed.
+
+(** F-C10-b: the dependent, polled first, consumes the node's dirty state *)
+Definition w2_cfg : cfg := mkCfg 0 2 true false false ex_fetch.
+Definition w2_evs : list event :=
+  [RunAll []; Complete 0; RunAll []; WriteSig 0 1; WriteSig 2 2; PollTask 1; PollTask 0; RunAll []].
+Example quiescent_latest_steal_refuted :
+  let s := run w2_cfg None w2_evs in
+  quiescentb s = true /\ manual s = false /\ value s = Some 0%Z /\
+  ex_fetch (inputs w2_cfg s) = 1000%Z.
+Proof. vm_compute. auto. Qed.
+
+(** F-C10-c: a memo source changes before the first poll; the stale initial future is awaited *)
+Definition w3_cfg : cfg := mkCfg 1 0 true true false ex_fetch.
+Definition w3_evs : list event := [WriteSig 1 1; RunAll []; Complete 0; RunAll []].
+Example quiescent_latest_stale_initial_refuted :
+  let s := run w3_cfg None w3_evs in
+  quiescentb s = true /\ manual s = false /\ value s = Some 0%Z /\
+  ex_fetch (inputs w3_cfg s) = 1%Z.
+Proof. vm_compute. auto. Qed.
+
+(** the same three histories on the repaired code settle on the latest inputs *)
+Definition ok_cfg (sh dp : nat) : cfg := mkCfg sh dp true true true ex_fetch.
+Example witnesses_fixed :
+  value (run (ok_cfg 2 0) None (w1_evs ++ [Complete 1; RunAll []])) = Some 10%Z /\
+  value (run (ok_cfg 0 2) None (w2_evs ++ [Complete 1; RunAll []])) = Some 1000%Z /\
+  value (run (ok_cfg 1 0) None (w3_evs ++ [Complete 1; RunAll []])) = Some 1%Z.
+Proof. vm_compute. auto. Qed.
+
+(** non-vacuity: a quiescent state after overlapping changes, with a parked awaiter resumed *)
+Example ex_quiescent :
+  let s := run (ok_cfg 3 1) (Some 0%Z)
+             [RunAll []; WriteSig 0 2; PollTask 0; Refetch; NewAwaiter; PollAwaiter 0;
+              Complete 1; RunAll []; Complete 2; RunAll [1%nat]; PollAwaiter 0] in
+  quiescentb s = true /\ loading s = false /\ value s = Some 1000%Z /\
+  awaiters s = [ADone 1000%Z] /\ dlog s = [Some 0%Z; Some 1000%Z; Some 1000%Z].
+Proof. vm_compute. auto. Qed.
